@@ -10,7 +10,10 @@ datasets processed, `|q ∩ D_d|`, greedy gather, the signatures themselves).  T
 constrain the incidental parts of an observation line (storage-spec string, number of STORAGE keys,
 the per-step results of a reopen sequence); for those the spec column repeats the model's value.
 For a crash state with more than one thread the interleaving is unknown: the harness reports the
-verdict of the marker invariants (`inv-ok`), which is what the spec column demands. -/
+verdict of the marker invariants (`inv-ok`), which is what the spec column demands.
+`crashw i k js exact` forces one particular interleaving on the real code (the datasets `js` complete
+and marked, then the first `k` writes of dataset `i`): the model column is the state after exactly
+that prefix of that linearisation (`Crash.run` over `js.flatMap dsWrites ++ (dsWrites i).take k`). -/
 open Driver Crash
 
 structure DState where
@@ -147,6 +150,22 @@ def stepC10 (st : DState) (ws : List String) : DState × Resp :=
       let d := crashAt st.sess.disk log n.toNat!
       let st := { st with sess := { st.sess with disk := d, handle := none }, complete := decide (log.length ≤ n.toNat!) }
       if st.threads == 1 then (st, { model := showScan d }) else (st, { model := "-", spec := "inv-ok" })
+  | ["crashw", i, k, js, mode] =>
+    match buildLog st with
+    | none => (st, { model := "child-failed:Some(101)" })
+    | some _ =>
+      let js := if js == "-" then [] else (js.splitOn "+").filterMap String.toNat?
+      -- a prefix of the linearisation "the datasets js one after the other, then dataset i"
+      let log := js.flatMap (dsWrites st.coll) ++ (dsWrites st.coll i.toNat!).take k.toNat!
+      let d := run st.sess.disk log
+      let st := { st with sess := { st.sess with disk := d, handle := none }, complete := false }
+      if mode == "exact" then (st, { model := showScan d }) else (st, { model := "-", spec := "inv-ok" })
+  | ["crashn", _, _, _] =>
+    -- natural timing: nothing is known about the state except the invariants (and the re-run's result)
+    match buildLog st with
+    | none => (st, { model := "child-failed:Some(101)" })
+    | some _ => ({ st with sess := { st.sess with handle := none }, complete := false }, { model := "-", spec := "inv-ok" })
+  | ["inv"] => (st, { model := "-", spec := "inv-ok" })
   | ["crashc", _] =>
     match buildLog st with
     | none => (st, { model := "child-failed:Some(101)" })
